@@ -24,13 +24,14 @@ CHECKS = {
         category='proof',
         text='Coq theorems: the evaluator model returns v iff v is the in-range ideal value (every evaluated constant, variable and '
              'intermediate in [0,M), no zero divisor, lazy && || ?:), fails exactly otherwise, and that value equals C unsigned-long '
-             'arithmetic mod 2^W for every W with M <= 2^W; the parser model only accepts sentences of the stratified plural.y grammar and '
-             'builds the tree that grammar assigns; with the generated digit limit no ValueError. Completeness of acceptance is not a theorem: '
-             'it is decided by exhaustive three-way comparison (model / real parser / independent plural.y reference) on all token sequences '
-             'of length <= 4 (quick) / 5 (thorough).',
-        design_ref='DESIGN.md 5 / C04',
-        technique='Coq proof (induction on expr / on parser fuel) + extracted-model correspondence + independent reference parser/evaluator',
-        note=NOTE_COMMON + ' rply is modelled, not verified. Known finding D12 (RecursionError on expressions nested >= 300 deep).'),
+             'arithmetic mod 2^W for every W with M <= 2^W; the lexer model reads exactly the token sequence of plural.y\'s yylex; the parser model is '
+             'sound AND complete for the stratified plural.y grammar (accepts iff a derivation exists, builds the unique tree, rejects with the own '
+             'syntax error exactly otherwise), its fuel never runs out and it raises nothing foreign; hence a string is accepted iff it is in the '
+             'plural language (terminator characters rejected). Tied to lib/intexpr.py by three-way comparison (model / real rply parser / independent '
+             'plural.y reference) on all token sequences of length <= 4 (quick) / 5 (thorough) plus random and deep families.',
+        design_ref='DESIGN.md 5 / C04; notes/C04.md',
+        technique='Coq proof (induction on expr; mutual operational grammar + fuel measure for the parser; case analysis over code points for the lexer) + extracted-model correspondence + independent reference parser/evaluator',
+        note=NOTE_COMMON + ' rply\'s LALR table construction is modelled, not verified; NUMBER is unbounded in the spec (C wrap of constants >= 2^32 is outside InRange anyway). Known finding D12 (RecursionError on expressions nested >= 300 deep).'),
     'C06': dict(
         category='proof',
         text='Coq theorem by structural induction over the expression grammar, for every modulus M: a returned (O, P) satisfies 1 <= P, 0 <= O and '
@@ -44,12 +45,12 @@ CHECKS = {
         text='Coq theorems about the model of parse_plural_forms/check_plurals: every "f(x) != k" claim is true for all n in [0,2^32) '
              '(composition of the C05 and C06 soundness theorems with the gap scan); the window diagnostics are exactly the least n < 200 that '
              'fails or leaves the range, with its true outcome; syntax-error iff the value is rejected; junk tags carry exactly the surrounding text; '
-             'leftmost match; nplurals verdict iff; a total, in-range, onto declaration is silent; and, over the registry regenerated from data/languages '
+             'leftmost match and no match iff no declaration anywhere; nplurals verdict iff; no foreign exception for any input (unconditional); a total, in-range, onto declaration is silent; and, over the registry regenerated from data/languages '
              'on every run, each own declaration is silent/usual and total on the window (vm_compute). Tied to the code by in-process correspondence '
              'of Checker.check_plurals and an independent truthfulness oracle.',
         design_ref='DESIGN.md 5 / C07',
         technique='Coq proof (composition of C05/C06 theorems, list induction, vm_compute over the regenerated registry) + correspondence + truthfulness oracle',
-        note=NOTE_COMMON + ' Completeness of the regex search (no match => no declaration anywhere) is covered by correspondence only. D1 fixed by commit 6bd9347.'),
+        note=NOTE_COMMON + ' The regex engine itself is modelled by the search function (tied by correspondence). D1 fixed by commit 6bd9347.'),
     'C02': dict(
         category='proof',
         text='Coq theorems: for EVERY string / byte string the escaped form consists of printable characters only (so no newline, ESC, C0/C1, DEL, '
@@ -168,14 +169,16 @@ CHECKS = {
         note=NOTE_COMMON + ' Unpacking, os.walk order and temporary-directory removal are runtime behaviour, explored only.'),
     'C10': dict(
         category='proof',
-        text='Partial (stated as C10_load_render_partial). Proved in Coq for ALL inputs: polib_unescape returns exactly the byte string for every spelling of it in the C escape '
-             'family (literal, \\n-style, octal, hex of the encoded bytes) without warning; the 14-state PO state machine on the token list of any rendering of a catalog rebuilds the '
-             'catalog (strings, flags in order with duplicates, obsolete, previous-msgid, references, extracted comments on the right entry; blank and #~| lines anywhere; nplurals <= 10); '
-             'per-line-kind lexer round trips. Not proved: the assembly lex_lines(render c) = tokens(c) (the named hypothesis), Codecs.open / detect_encoding composition (modelled, tied by '
-             'correspondence). Tied by load(render(c)) == c over 42 ASCII-compatible codecs with an independent renderer.',
+        text='Proved in Coq for ALL inputs: polib_unescape returns exactly the byte string for every spelling of it in the C escape family (literal, \\n-style, octal, hex of the encoded '
+             'bytes) in every ASCII-compatible charset without warning, never crashes on any string and warns exactly on the D14 pattern; for every catalog and every spelling of the printer family '
+             '(per-line padding, blank lines anywhere, continuation splitting, obsolete and previous-msgid prefixes) the loader model - detect_encoding, Codecs.open (LF-only splitting, comment '
+             'normalisation), the line lexer and the 14-state PO state machine - yields exactly the catalog: strings, flags in order with duplicates, obsolete marker, previous-msgid, references '
+             'and extracted comments on the right entry, for nplurals <= 10 (D9) and outside dropped #~| annotations (D22) (C10_load_render, C10_open_load_render, C10_load_po_render; the codecs '
+             'are oracles whose answers the harness supplies from the live codecs). The loader model never crashes. Tied by correspondence and by the model-free load(render(c)) == c oracle over '
+             '42 ASCII-compatible charsets with an independent renderer, on single files and on multi-file sequences in one process.',
         design_ref='DESIGN.md 5 / C10; notes/C10.md',
-        technique='Coq proof (unescape round trip, state-machine round trip, per-line lexer lemmas) + extracted-model correspondence + render/load oracle',
-        note=NOTE_COMMON + ' polib (third party) is modelled, not verified. Known findings D9, D14, D22, D23.'),
+        technique='Coq proof (unescape round trip and totality, lexer round trips per line kind and their assembly, state-machine round trip, Codecs.open / detect_encoding composition) + extracted-model correspondence with oracle-answer protocol + render/load oracle',
+        note=NOTE_COMMON + ' polib (third party) is modelled, not verified; bytes.decode is an oracle; separators after keywords are one choice per file in the proved family. Known findings D9, D14, D22, D23.'),
     'C12': dict(
         category='proof',
         text='Coq theorems relating two models, the scanner model of strformat.python.FormatString and a model of CPython 3.12 unicode_format_arg_parse/format: if the parser accepts '
@@ -186,15 +189,17 @@ CHECKS = {
         technique='Coq proof (per-directive agreement lemma between two scanners) + two extracted-model correspondences + live-interpreter oracle',
         note=NOTE_COMMON + ' The CPython-side model is hand-written from knowledge of unicodeobject.c and validated against the live interpreter, not derived from its source.'),
     'C13': dict(
-        category='other',
-        text='Partial. perl-brace: complete Coq theorems (accept iff every "{" opens "{identifier}", reported names = identifiers, only own errors, the model scanner inspects at most 2|s|+1 '
+        category='proof',
+        text='perl-brace: complete Coq theorems (accept iff every "{" opens "{identifier}", reported names = identifiers, only own errors, the model scanner inspects at most 2|s|+1 '
              'characters). python-brace: proved that acceptance implies Python\'s parser accepts and that a string Python rejects is rejected (outside the known finding D25, with refutation '
-             'witnesses), only own errors (unguarded since the D3 fix), and soundness of the type set computed for a format spec against a model of CPython format() (outside D24). Not proved: '
-             'the whole-string bookkeeping of the flat-fields formatting theorem. Linear time of the real regex is MEASURED on doubling families (it is a property of the re engine, no Gallina '
-             'model exhibits it).',
+             'witnesses), only own errors (unguarded since the D3 fix), soundness of the type set computed for a format spec against a model of CPython format() (outside D24), and the flat-fields '
+             'theorem: an accepted string whose fields are flat (no nested field, no attribute/index, spec outside D24) formats successfully under the CPython model with any arguments matching '
+             'the reported argument map and type sets (automatic/manual numbering and index-vs-keyword lookup included), also instantiated on the generated Unicode tables. The flat/guard domain '
+             'is recomputed by the extracted model and compared with the live parser on every run; the CPython-side model is compared with string.Formatter().parse and str.format. Time on the real '
+             're engine is MEASURED on doubling families (a property of the engine no Gallina model exhibits); the model scanners have proved linear step bounds.',
         design_ref='DESIGN.md 5 / C13; notes/C13.md',
-        technique='Coq proof (scanner models vs declarative specs / CPython markup model) + correspondences (model vs parser, spec vs string.Formatter / str.format) + measured time growth',
-        note=NOTE_COMMON + ' Known findings D24 (pinned by tests), D25. D3, D4 fixed (01ae369, 89b000c).'),
+        technique='Coq proof (scanner models vs declarative specs / CPython markup + format model) + correspondences (model vs parser, spec vs string.Formatter / str.format, domain op) + measured time growth',
+        note=NOTE_COMMON + ' The CPython-side model is hand-written and validated against the live interpreter. Known findings D24 (pinned by tests), D25. D3, D4 fixed (01ae369, 89b000c).'),
     'C01': dict(
         category='other',
         text='Partial. Proved: the conjunction of the component no-crash / totality theorems (plural evaluator and analyses, MO loader through Checker.check\'s handlers, C format parser, '
